@@ -78,6 +78,18 @@ def test_rowmodel_distinct_rules():
     check("distinct-plain", RM.distinct_holds({"field": "k", "op": "<", "n": 2}, 1), True)
 
 
+def test_fieldmodel_regex_beyond_ascii():
+    from cpverif.models import fieldmodel as FM
+
+    check("rx-umlaut-ignoring-case", FM.regex_prefix_match("zürich [a-z]+", "ZÜRICH west"), True)
+    check("rx-umlaut-other-letter", FM.regex_prefix_match("zürich", "zurich"), False)
+    check("rx-word-character", FM.regex_prefix_match("m\\wller", "Müller"), True)
+    check("rx-digit-class", FM.regex_prefix_match("\\d", "ä"), False)
+    check("rx-set-does-not-reach", FM.regex_prefix_match("[a-z]", "ä"), False)
+    check("rx-negated-set", FM.regex_prefix_match("[^a-z]", "Ω"), True)
+    check("rx-outside-subset", FM.regex_prefix_match("ß", "ß"), None)
+
+
 def run_all():
     for name, fn in sorted(globals().items()):
         if name.startswith("test_") and callable(fn):
